@@ -266,11 +266,14 @@ def run(ctx, res):
                         "ds1": f2b(1.0), "dds1": f2b(1.0), "ds2": f2b(1.0), "dds2": f2b(1.0)}
                 lines.append(line)
                 meta.append((case["ltype"], v, scaled))
-    for _ in range(ctx.n(10, 80)):
+    for _ in range(ctx.n(16, 96)):
         sseed = rng.randrange(2 ** 30)
         k_ = res.distribution.get("sample_tried", 0)
         res.count("sample_tried")
-        smodel, sinterp = ["FLCDM", "FwCDM", "w0waCDM", "oLCDM"][k_ % 4], bool((k_ // 4) % 2)      # every model x supply mode in turn
+        # every model x supply mode in turn; the curved model with interpolation (its own curvature scale, its own table) more often
+        combos = [(m_, i_) for i_ in (False, True) for m_ in ("FLCDM", "FwCDM", "w0waCDM", "oLCDM")] + \
+                 [("oLCDM", True)] * 3 + [("w0waCDM", True), ("FwCDM", True), ("FLCDM", True), ("oLCDM", False), ("w0waCDM", False)]
+        smodel, sinterp = combos[k_ % len(combos)]
         try:
             f = sample_oracle(sseed, smodel, sinterp)
         except Exception as e:  # noqa
